@@ -122,6 +122,10 @@ pub fn programs() -> Vec<&'static str> {
         "out(X) :- in(X), X > 0.",
         "out(X) :- in(X), X >= 1.",
         "aux(X) :- in(X), X > 0. out(X) :- in(X), aux(X).",
+        "out(X) :- in(X), not aux(X).",
+        "aux. out(X) :- in(X), aux.",
+        "out(X) :- in(X), not aux.",
+        "out(X) :- in(X), X > 0, not aux(X). aux(X) :- in(X), X > 1.",
     ]
 }
 
